@@ -329,7 +329,6 @@ type connState struct {
 	class     int
 	openedAt  time.Duration
 	closedAt  time.Duration // <0 while open
-	notified  bool
 	waitBound time.Duration // instant by which the identify-wait of this conn must be released
 }
 
@@ -365,7 +364,6 @@ type runner struct {
 	usableRec   map[string]struct{}
 	quietFrom   time.Duration // no harness-driven activity after this instant (as scheduled so far)
 	armedConn   *connState    // connection that closes inside the next connected address update
-	armedReset  bool
 	firedAt     time.Duration // when that happened (<0: not yet); guarded by emu
 	pendingNote int           // Disconnected notifications not delivered yet
 	waits       []waitRec
@@ -593,10 +591,11 @@ func (r *runner) doClose(st *step) {
 	r.active(now + st.notifyDelay)
 	if st.notifyDelay == 0 {
 		r.h.net.notifyDisconnected(cs.fc)
-		cs.notified = true
 		return
 	}
+	r.emu.Lock()
 	r.pendingNote++
+	r.emu.Unlock()
 	r.wg.Add(1)
 	d := st.notifyDelay
 	go func() {
@@ -604,7 +603,6 @@ func (r *runner) doClose(st *step) {
 		time.Sleep(d)
 		r.h.net.notifyDisconnected(cs.fc)
 		r.emu.Lock()
-		cs.notified = true
 		r.pendingNote--
 		r.emu.Unlock()
 	}()
@@ -650,7 +648,7 @@ func (r *runner) lastZero() time.Duration {
 // connection may die at any time and the peerstore may be slow.
 func (r *runner) doArmClose(st *step) {
 	cs := r.conns[st.conn]
-	r.armedConn, r.armedReset = cs, st.resetStreams
+	r.armedConn = cs
 	reset := st.resetStreams
 	r.ps.arm(func() {
 		r.emu.Lock()
@@ -686,7 +684,6 @@ func (r *runner) reconcile() {
 		return
 	}
 	r.armedConn.closedAt = at
-	r.armedConn.notified = true
 	r.armedConn = nil
 	r.raced = true
 	r.label("closed-inside-consumption")
@@ -706,7 +703,7 @@ func (r *runner) addrSet() map[string]ma.Multiaddr {
 	return out
 }
 
-// surelyConnectedSince reports whether the most recent message consumption(s)
+// surelyConnected reports whether the most recent message consumption(s)
 // certainly happened while a connection to p existed, and p has not been without a
 // connection since. Then every address stored for p was stored "while connected".
 func (r *runner) surelyConnected() bool {
